@@ -1,11 +1,14 @@
 import ZipVerif.Tie.VisitC
 import ZipVerif.Lemmas.FaultVisit
+import ZipVerif.Props.C05
 /-
 The parameter `KindFacts` of `Tie/VisitC.lean` discharged (helper t6r4): no model computation changes the kind of error
 a device fails with (`Uniform.kind`, `Lemmas/FaultCore.lean`; instances in `Lemmas/FaultVisit.lean` /
 `Lemmas/FaultReader.lean`), hence `tie_visit_streamVisitC_hard`: the translated `ZipStreamReader::visit` with the
 model's consumer as visitor is `Model.streamVisitC` (the definition `Props/C11` is stated about), without that
-parameter.  Separate module because the fault lemma family cannot be imported next to the lemma files of C10.
+parameter.  No hypothesis on the run is left besides `Hk` and the fuel bounds (the adequacy of the model's loop bounds
+is proved: `Lemmas/VisitBounds.lean`); the `example`s at the end instantiate the theorem on the one-entry archive
+`Props.C05.oneEntry` (failure-free, and with a hard fault at every call index), where the model's run is evaluated.
 -/
 open ZipVerif ZipVerif.Model ZipVerif.Tie.Visit
 
@@ -17,10 +20,40 @@ theorem kindFacts (ext : Ext) (pat : List Consume) : KindFacts ext pat where
   central fa d := (centralHeaderInner_tight 0 0).uni.kind fa d
 
 theorem tie_visit_streamVisitC_hard (ext : Ext) (gext : Visit.GExt) (pat : List Consume) (fuel : Nat) (hfuel : 2 ^ 64 + 2 ≤ fuel)
-    (fa : Option Nat) (d : Dev) (hk : Hk fa d) (hf1 : d.buf.length / 30 + 1 ≤ fuel) (hf2 : d.buf.length / 46 + 1 ≤ fuel)
-    (hA : BoundsAdequate ext pat fa d) :
+    (fa : Option Nat) (d : Dev) (hk : Hk fa d) (hf1 : d.buf.length / 30 + 1 ≤ fuel) (hf2 : d.buf.length / 46 + 1 ≤ fuel) :
     (shown <$> Gen.ZipStreamReader.visit (consumeVis ext pat) gext fuel (0, [], [])) fa d =
       streamVisitC ext pat fa d :=
-  tie_visit_streamVisitC ext gext pat fuel hfuel fa d hk hf1 hf2 hA (kindFacts ext pat)
+  tie_visit_streamVisitC ext gext pat fuel hfuel fa d hk hf1 hf2 (kindFacts ext pat)
+
+/-! ### non-vacuity: the theorem instantiated on a concrete archive -/
+
+/-- the consumer of the examples: 4 bytes of each entry -/
+def pat4 : List Consume := [{ k := 4, pulled := 4 }]
+
+/-- **failure-free run over the one-entry archive `Props.C05.oneEntry`** (101 bytes): every hypothesis of
+`tie_visit_streamVisitC_hard` holds, the model's run succeeds (evaluated: one entry `a` with content `Z`, one metadata
+record), hence so does the translated `visit`, for every behaviour of the external layer constructors. -/
+example (gext : Visit.GExt) :
+    (shown <$> Gen.ZipStreamReader.visit (consumeVis storedExt pat4) gext (2 ^ 64 + 2) (0, [], [])) none
+        (Dev.ofBytes Props.C05.oneEntry) = streamVisitC storedExt pat4 none (Dev.ofBytes Props.C05.oneEntry) ∧
+    ((streamVisitC storedExt pat4 none (Dev.ofBytes Props.C05.oneEntry)).1.isOk = true ∧
+      (match (streamVisitC storedExt pat4 none (Dev.ofBytes Props.C05.oneEntry)).1 with
+        | .ok (files, metas) => files.map (fun x => (x.1.fileName, x.2)) == [([0x61], [0x5a])] && metas.length == 1
+        | _ => false) = true) :=
+  ⟨tie_visit_streamVisitC_hard storedExt gext pat4 (2 ^ 64 + 2) (Nat.le_refl _) none (Dev.ofBytes Props.C05.oneEntry)
+      (Or.inr rfl) (by decide +kernel) (by decide +kernel), by decide +kernel⟩
+
+/-- **the same archive with I/O call `k` failing hard, for every `k`**: the hypotheses hold (`Hk`: `Dev.ofBytes` fails
+with a kind other than `Interrupted`); for every `k` among the calls of the run the model - hence the translated
+`visit` - ends in an error (next `example`, evaluated). -/
+example (gext : Visit.GExt) (k : Nat) :
+    (shown <$> Gen.ZipStreamReader.visit (consumeVis storedExt pat4) gext (2 ^ 64 + 2) (0, [], [])) (some k)
+        (Dev.ofBytes Props.C05.oneEntry) = streamVisitC storedExt pat4 (some k) (Dev.ofBytes Props.C05.oneEntry) :=
+  tie_visit_streamVisitC_hard storedExt gext pat4 (2 ^ 64 + 2) (Nat.le_refl _) (some k) (Dev.ofBytes Props.C05.oneEntry)
+    (Or.inl (by decide)) (by decide +kernel) (by decide +kernel)
+
+example : (List.range (streamVisitC storedExt pat4 none (Dev.ofBytes Props.C05.oneEntry)).2.calls).all (fun k =>
+    Props.C05.isErr (streamVisitC storedExt pat4 (some k) (Dev.ofBytes Props.C05.oneEntry)).1) = true := by
+  decide +kernel
 
 end ZipVerif.Tie.VisitC
